@@ -28,14 +28,17 @@ pub struct Cfg {
     /// All alphabet keys on ONE version-clock shard (fixed hasher seeds, keys chosen to collide)
     /// instead of pairwise distinct ones.
     pub same_shard: bool,
+    /// Scheduling points after every update of the memory-usage counter; the program's keys are
+    /// placed in pairwise distinct hash buckets (the points lie inside the bucket guard).
+    pub mem_points: bool,
 }
 
 impl Cfg {
     pub fn memory() -> Cfg {
-        Cfg { persistent: false, cache: false, ttl: false, format: 3, data_blocks: 0, max_memory: None, uring: false, workers: 1, same_shard: false }
+        Cfg { persistent: false, cache: false, ttl: false, format: 3, data_blocks: 0, max_memory: None, uring: false, workers: 1, same_shard: false, mem_points: false }
     }
     pub fn persistent(data_blocks: u64) -> Cfg {
-        Cfg { persistent: true, cache: true, ttl: false, format: 3, data_blocks, max_memory: None, uring: false, workers: 1, same_shard: false }
+        Cfg { persistent: true, cache: true, ttl: false, format: 3, data_blocks, max_memory: None, uring: false, workers: 1, same_shard: false, mem_points: false }
     }
     pub fn name(&self) -> String {
         format!(
@@ -204,7 +207,8 @@ fn next_expiry(store: &FeoxStore, now: u64) -> Option<u64> {
 
 impl Sut {
     fn build(cfg: &Cfg, path: Option<&str>, rotate: usize) -> Result<FeoxStore, FeoxError> {
-        let mut b = FeoxStore::builder().hash_bits(4).enable_ttl(cfg.ttl);
+        // more buckets when the program's keys have to lie in pairwise distinct ones
+        let mut b = FeoxStore::builder().hash_bits(if cfg.mem_points { 10 } else { 4 }).enable_ttl(cfg.ttl);
         b = match cfg.max_memory {
             Some(m) => b.max_memory(m),
             None => b.no_memory_limit(),
